@@ -129,12 +129,23 @@ def cases_for_config(cfg, rng, tier):
   for p in range(P):
     for at in range(lens[p] + 1):
       out.append(dict(cfg, fault={'p': p, 'at': at}, timeout=None))
+    # the source cannot even be opened (iter() raises), and exception types that
+    # the queue itself uses internally
+    out.append(dict(cfg, fault={'p': p, 'at': -1}, timeout=None))
+    at = rng.randint(0, lens[p])
+    out.append(dict(cfg, fault={'p': p, 'at': at,
+                                'exc': rng.choice(['Empty', 'QueueEmpty', 'Full', 'TimeoutError',
+                                                   'KeyError', 'IndexError', 'RuntimeError'])},
+                    timeout=None))
   total = sum(lens)
   for k in range(total + 1):
     for exc in (False, True):
       if not exc and not cfg['preset']:
         continue
       out.append(dict(cfg, stop={'after': k, 'exc': exc}, timeout=None))
+  # a queue that ignores enqueue errors is stopped with an exception
+  out.append(dict(cfg, stop={'after': rng.randint(0, total), 'exc': True}, timeout=None,
+                  ignore_error=True))
   # starvation with a timeout configured
   out.append(dict(cfg, P=0, lens=[], preset=False, timeout=3.0, expect='get_timeout',
                   modes=[m for m in cfg['modes']], fault=None, stop=None))
